@@ -94,7 +94,7 @@ def _max_age_formula() -> str:
     if len(found) != 1:
         raise TranslatorError("update_cookies: max_age_expiration assigned %d times" % len(found))
     e = _Subst().visit(copy.deepcopy(found[0]))
-    return core.formula(e, {"now": "now", "delta_seconds": "d", "MAX_TIME": "MAX_TIME", "__scope__": "Z"})
+    return core.formula(e, {"now": "now", "delta_seconds": "d", "MAX_TIME": "max_time", "__scope__": "Z"})
 
 
 def _do_expiration_items():
@@ -244,7 +244,9 @@ def generate() -> str:
     out.append(f"Definition MIN_SCHEDULED_COOKIE_EXPIRATION : N := {v}.\n")
     out.append(f"(* CookieJar.MAX_TIME = {_EXPECTED_MAX_TIME} *)\nDefinition MAX_TIME : Z := {_max_time()}%Z.\n")
     out.append("(* update_cookies: max_age_expiration = min(time.time() + delta_seconds, self.MAX_TIME) *)\n"
-               f"Definition max_age_deadline (now d : Z) : Z := ({_max_age_formula()})%Z.\n")
+               "(* the formula with MAX_TIME as a parameter: the model measures time in ticks of 1/TICKS s *)\n"
+               f"Definition max_age_deadline_gen (now d max_time : Z) : Z := ({_max_age_formula()})%Z.\n"
+               "Definition max_age_deadline (now d : Z) : Z := max_age_deadline_gen now d MAX_TIME.\n")
     cleanup, stay = _do_expiration_items()
     out.append("(* _do_expiration: the stale-entry clean-up of the heap runs when *)\n"
                f"Definition heap_cleanup_due (heap_len n_exp : N) : bool := {cleanup}.\n")
